@@ -296,5 +296,8 @@ _targets_before_folds = targets
 def targets():      # noqa: F811
     """+ the parallel law for ANY number of branches and frequencies (contracts/parallel_law.py); shared with C20: the series law for ANY number of children (pyvc.hoare: the loop over the children cut at the invariant
     `result == partial sum`), with containers evaluated with their values and sub-circuits"""
-    from . import diagrams, parallel_law
-    return _targets_before_folds() + [diagrams.target_child_folds()] + parallel_law.targets()
+    from . import diagrams, parallel_law, c03
+    # shared with C03: a circuit built with the builder, or re-created from its description code, goes through the emitters --
+    # every child of a connection is printed (also a nested connection without children, which is a short inside a parallel one)
+    emitters = [t for t in c03.targets() if "to_string" in t[0]]
+    return _targets_before_folds() + [diagrams.target_child_folds()] + parallel_law.targets() + emitters
